@@ -1,0 +1,53 @@
+//go:build verif
+
+package gabi
+
+import (
+	"github.com/privacybydesign/gabi/big"
+)
+
+// Accessors for the verification harness (compiled only with the build tag verif). They expose
+// unexported prover state read-only, except VerifSetAttrRandomizer which lets the harness pin a
+// commitment randomizer to construct boundary cases.
+
+// VerifRandomizers returns the commitment randomizers of a disclosure proof builder:
+// eCommit, vCommit, the per-attribute randomizers and the randomised signature's A.
+func (d *DisclosureProofBuilder) VerifRandomizers() (eCommit, vCommit *big.Int, attr map[int]*big.Int, a *big.Int) {
+	return d.eCommit, d.vCommit, d.attrRandomizers, d.randomizedSignature.A
+}
+
+// VerifSetAttrRandomizer overrides the commitment randomizer of hidden attribute i (before Commit).
+func (d *DisclosureProofBuilder) VerifSetAttrRandomizer(i int, r *big.Int) {
+	d.attrRandomizers[i] = r
+}
+
+// VerifNonrevBuilder returns the non-revocation proof builder a disclosure proof builder consumed (nil if none).
+func (d *DisclosureProofBuilder) VerifNonrevBuilder() *NonRevocationProofBuilder {
+	return d.nonrevBuilder
+}
+
+// VerifState returns the accumulator index the builder is committed to and its alpha randomizer.
+func (b *NonRevocationProofBuilder) VerifState() (index uint64, randomizer *big.Int) {
+	return b.index, b.randomizer
+}
+
+// VerifRandomizers returns the commitment randomizers of a credential builder.
+func (b *CredentialBuilder) VerifRandomizers() (vPrimeCommit, skRandomizer *big.Int, mUserCommit map[int]*big.Int) {
+	return b.vPrimeCommit, b.skRandomizer, b.mUserCommit
+}
+
+// VerifCachedNonrevBuilder peeks at the credential's non-revocation cache without consuming it
+// (it takes the builder out and puts it straight back; only for use while nothing else runs).
+func (ic *Credential) VerifCachedNonrevBuilder() *NonRevocationProofBuilder {
+	c := ic.nonrevCacheChan(false)
+	if c == nil {
+		return nil
+	}
+	select {
+	case b := <-c:
+		c <- b
+		return b
+	default:
+		return nil
+	}
+}
